@@ -166,6 +166,8 @@ static void check(void)
 
 static void setup_combo(void)
 {
+  econf_reset_security_settings();
+  for (int i = 0; i < ncombo; i++) if (combo[i] == 6) B_REQUIRE_PERMISSIONS();      /* process-wide, set while no thread exists */
   for (int i = 0; i < ncombo; i++) {
     T[i].body = combo[i];
     snprintf(T[i].dir, sizeof T[i].dir, "%s/T%d", mc_work, i);
